@@ -146,6 +146,7 @@ class Kernel(object):
         self.pipes = None           # PipeTable or None
         self.external = {}          # pid -> KProc not children of the daemon (unrelated processes)
         self.spawn_cost = 0.001
+        self.spawn_errors = {}       # spawn attempt index -> exception instance to raise (unexpected failure)
         self.kill_latency = 0.0005    # a SIGKILLed process needs a moment to become a zombie (never instantaneous on a real kernel)
 
     # ------------------------------------------------------------------ time / injections
@@ -209,6 +210,8 @@ class Kernel(object):
         self.spawn_attempts += 1
         if idx in self.spawn_failures:
             raise OSError(errno.ENOENT, 'No such file or directory (injected exec failure)')
+        if idx in self.spawn_errors:
+            raise self.spawn_errors[idx]
         pid = self.next_pid
         self.next_pid += 1
         beh = self.behaviour(len(self.spawn_log), argv)
